@@ -120,7 +120,11 @@ class ProfmodExtractor:
             and add them to list to be profiled
             """
             for submod_path in package_modpaths(modpath, with_pkg=True):
-                submod_name = modpath_to_modname(submod_path)
+                try:
+                    submod_name = modpath_to_modname(submod_path)
+                except ValueError:
+                    # e.g. a dangling symbolic link
+                    continue
                 if submod_name not in modnames_to_profile:
                     modnames_to_profile.append(submod_name)
 
